@@ -177,7 +177,9 @@ pub fn run_sweep(ctx: &Ctx, sw: &Sweep) -> Report {
         let mut ns: Vec<usize> = vec![1100];
         ns.extend(crate::gens::extra_bounds().iter().copied().filter(|x| *x >= 200 && *x <= 5000).map(|x| x + 76));
         ns.sort(); ns.dedup();
-        for (k, n) in ns.into_iter().take(4).enumerate() {
+        // the three smallest and the largest (a history of closed ids bounded by a count-like literal shows only beyond it)
+        let ns: Vec<usize> = { let mut v: Vec<usize> = ns.iter().copied().take(3).collect(); if let Some(l) = ns.last() { if !v.contains(l) { v.push(*l); } } v };
+        for (k, n) in ns.into_iter().enumerate() {
             let mut ops: Vec<Op> = (0..n).map(|i| Op::Start(format!("w{i}"))).collect();
             for i in 0..n { ops.push(Op::Append { id: i as u64, size: 2, src: rng.bytes(2, 3) }); }
             for i in (0..n).rev() { ops.push(Op::End(i as u64)); }
